@@ -172,6 +172,20 @@ impl Recv {
         // out of `ReservedRemote`. As a result, `recv_open` reports each of them
         // as initial. Only account for the stream once.
         if is_initial && !stream.is_counted {
+            // The concurrency limit is checked when the stream ID is opened
+            // (`Recv::open`), but a stream reserved by PUSH_PROMISE is only
+            // counted once its HEADERS arrive. The peer may have reserved
+            // more streams than it is allowed to have active, so the limit
+            // has to be checked again here. Refuse the stream instead of
+            // exceeding the limit.
+            if !counts.can_inc_num_recv_streams() {
+                tracing::debug!(
+                    "stream error REFUSED_STREAM -- recv_headers: max concurrent streams reached; stream={:?}",
+                    stream.id
+                );
+                return Err(Error::library_reset(stream.id, Reason::REFUSED_STREAM).into());
+            }
+
             // TODO: be smarter about this logic
             if frame.stream_id() > self.last_processed_id {
                 self.last_processed_id = frame.stream_id();
